@@ -1,4 +1,5 @@
 import A2lVerif.Props.C19
+import A2lVerif.Lemmas.A2mlDepth
 /-!
 # C19, the text constant: `renderSpec` (model of `generate_a2ml_constant` for specifications without named types)
 
@@ -10,6 +11,10 @@ checked:
   text that parses again, and the two trees have the same `dump_spec` text;
 * by the driver (`amlrt`, model-only): the same round trip for all six recorded constants and for all 813 other
   definitions that occur in the recorded `typ` requests: 819 x `ok`.
+Since the A2ML parser limits the nesting depth (`MAX_NESTING_DEPTH = 100`, Props/C18.lean 5a'), the round trip can
+only hold for specifications of at most 100 levels: `renderSpec_roundtrip_needs_depth` (for a deeper `S` no text at
+all parses to `S`, whatever `renderSpec` prints). The specifications that the macro generates from Rust types are a
+few levels deep (`rootStruct_depth`).
 That the constant is accepted by the library's parser and describes the structure of the typed code is tied by the
 recorded requests themselves: the `aml` lines (the library's parser and the model's parser print the same structure
 for the constant, and the harness compares it with the specification) and the `typ` lines, whose typed decoding in
@@ -33,5 +38,27 @@ example : renderSpec exSpec =
 def rootStructText : String := "      block \"IF_DATA\" struct {\n        uint;\n        char[10];\n        taggedstruct {\n          \"T1\" uint;\n          (\"T2\" char[5])*;\n          block \"SEQUENCE\" (char[12])*;\n        };\n      };"
 
 theorem renderSpec_roundtrip_rootStruct : renderRoundTrip rootStructText = true := by decide +kernel
+
+/-- the depth of what `parse_a2ml` returns for a text (`none` if it is rejected) -/
+def depthOf (text : String) : Option Nat :=
+  match parseA2ml text.toList with
+  | .ok S => some (specDepth S)
+  | _ => none
+
+/-- the `RootStruct` specification is 5 levels deep (struct, tagged struct, `( )*`, `[12]`, `char`) -/
+theorem rootStruct_depth : depthOf rootStructText = some 5 := by decide +kernel
+
+/-- **the round trip needs `specDepth S ≤ 100`**: a specification of more than 100 levels is not the result of
+    parsing any text, in particular not of its own rendering -/
+theorem renderSpec_roundtrip_needs_depth (S : Spec) (h : 100 < specDepth S) (cs : List Char) : parseA2ml cs ≠ .ok S := by
+  intro hp
+  have := parseA2ml_depth cs S hp
+  omega
+
+/-- such specifications exist (100 structs around `int`), and the bound is sharp (99 structs are parsed) -/
+example : 100 < specDepth (nestSpec 100) := by rw [specDepth_nestSpec]; decide
+example : specDepth (nestSpec 99) ≤ 100 ∧ parseA2ml (nestDeclText 99) = .ok (nestSpec 99) := by
+  rw [specDepth_nestSpec, parseA2ml_nest]
+  exact ⟨by decide, rfl⟩
 
 end A2l.Typed
